@@ -616,10 +616,10 @@ impl Property for C02 {
         sc.capture_state = true;
         {
             // long series of conflicts in one solve (counters, stamps and periodic actions keyed on the number of
-            // conflicts): forests of 900..1300 conflict gadgets, several hundred learnt clauses per solve (a solve takes seconds: every lazily discovered conflict restarts the search), on one seed in 80000
+            // conflicts): forests of 900..1020 conflict gadgets, several hundred learnt clauses per solve (a solve takes seconds: every lazily discovered conflict restarts the search), on one seed in 80000
             let mut gr = Rng::stream(seed, "many-conflicts");
             if gr.chance(1, 80_000) || std::env::var("VERIF_FORCE_MANY_CONFLICTS").is_ok() {
-                let k = gr.range(900, 1300);
+                let k = gr.range(900, 1020);
                 let (w, p) = crate::gen::gen_forest(&mut gr, &params, k, true, true);
                 sc.world = w;
                 sc.solves.truncate(1);
@@ -2051,7 +2051,7 @@ impl Property for C12 {
             gen_config(&mut cr, &mut sc, Some(true));
         } else {
             // long propagation rounds and encoding passes with more than a thousand results
-            maybe_chain_kind(seed, &mut sc, 200, true);
+            maybe_chain_kind(seed, &mut sc, 320, true);
         }
         // explicit trace-free policies only (the schedule must not depend on the fault)
         sc.spurious_p = 0;
